@@ -11,6 +11,7 @@ import (
 	"reflect"
 	"regexp"
 	"runtime"
+	"runtime/debug"
 	"strconv"
 	"strings"
 	"sync"
@@ -69,7 +70,7 @@ func Spellings() []Input {
 	add := func(name, body string) {
 		in = append(in, Input{"spelling: " + name, "package p\n\ntempl c() {\n\t<section>\n\t\t{ children... }\n\t</section>\n}\n\ntempl T(x string, xs []string, b bool) {\n" + body + "\n}\n"})
 	}
-	vals := []string{"plain", "a&amp;b", "&lt;tag&gt;", "&quot;q&quot;", "&#39;s&#39;", "&amp;lt;", "it's", "say \"hi\"", "a  b", "é&eacute;", "&copy", "&amp;amp;"}
+	vals := []string{"?q=1&amp;copy=2&amp;region=eu", "&amp;lt", "&amp;#60", "&amp;amp", "x&amp;reg;y", "&amp;notit;", "plain", "a&amp;b", "&lt;tag&gt;", "&quot;q&quot;", "&#39;s&#39;", "&amp;lt;", "it's", "say \"hi\"", "a  b", "é&eacute;", "&copy", "&amp;amp;"}
 	for _, v := range vals {
 		for _, q := range []string{`"`, `'`} {
 			if strings.Contains(v, q) {
@@ -108,6 +109,10 @@ func Spellings() []Input {
 		"\t<div class={\n\t\t\"a\",\n\t\t\"b\" }></div>", "\t<div class={ \"a\",\n\t\t\"b\",\n\t}></div>",
 		"\t<div title=\"&#10;\">t</div>", "\t<div title=\"a&#13;b\">t</div>", "\t<div title=\"&#9;x\">t</div>", "\t<div title=\"a\nb\">t</div>", "\t<div title='&#39;&quot;'>t</div>",
 		"\t{!  c() }", "\t{! c()  }", "\t{!c()}", "\t<div>{! c() }</div>",
+		// component calls whose arguments hold raw strings spanning lines, with backquotes in other literals and comments
+		"\t@d(`l1\nl2\n  l3`)", "\t@d(\"`\",\n\t\t`l1\nl2\n  l3`)", "\t@d('`', `l1\nl2`)", "\t@d(x, // a ` comment\n\t\t`l1\nl2`)", "\t@d(`a`, `l1\nl2`,\n\t\tx)",
+		"\t@d(\"press the ` key\", `a\nb`)", "\t<div>\n\t\t@d(`l1\nl2`) {\n\t\t\t<b>k</b>\n\t\t}\n\t</div>", "\t@d(fmt.Sprintf(\"%s\",\n\t\tx))",
+		"\t<div title={ \"`\" + `l1\nl2` }></div>", "\t{ \"`\" + `l1\nl2` }", "\t<div class={ \"`\",\n\t\t`l1\nl2`,\n\t}></div>",
 		"\t@c() {\n\t\t{ x }\n\t}\n\t@c()", "\t<div>@c()</div>", "\t<input\n\t\ttype=\"text\"\n\t\tvalue={ x }\n\t/>", "\t<input type=\"text\" value={ x }>",
 		"\t<!DOCTYPE html>\n\t<html><body>{ x }</body></html>", "\t<textarea>\n  keep\n</textarea>", "\t<pre>\n  keep { x }\n</pre>",
 		"\tif b { <b>y</b> }", "\tfor _, v := range xs { <b>{ v }</b> }", "\tswitch x {\n\tcase \"a\": <b>a</b>\n\tdefault: <b>d</b>\n\t}",
@@ -365,6 +370,38 @@ func Run(id string) {
 		}()
 	}
 	wg.Wait()
+	if id == "C09" {
+		// history independence: format-on-save (a long-lived process that has formatted other files before) and a
+		// fresh `templ fmt` must agree. Every input is formatted again, sequentially on one goroutine, first in
+		// order and then in reverse order, so that every input is preceded by different histories.
+		// Pools and caches are emptied by two garbage collections before each pass and the collector is switched off
+		// during a pass, so pass 1 meets every input after the inputs before it, pass 2 after the inputs behind it.
+		runtime.GOMAXPROCS(1)
+		old := debug.SetGCPercent(-1)
+		pass := func(reverse bool) []string {
+			runtime.GC()
+			runtime.GC()
+			out := make([]string, len(inputs))
+			for k := range inputs {
+				i := k
+				if reverse {
+					i = len(inputs) - 1 - k
+				}
+				out[i], _ = Format(inputs[i].Src)
+			}
+			return out
+		}
+		first := pass(false)
+		again := pass(true)
+		debug.SetGCPercent(old)
+		for i := range inputs {
+			if again[i] != first[i] {
+				run.Violation("formatting-depends-on-history", fmt.Sprintf("%s: formatting the same text twice in one process gives different results depending on what was formatted before\nafter the inputs before it:\n%s\nafter the inputs behind it:\n%s", inputs[i].Name, first[i], again[i]), map[string]any{"input": inputs[i].Name, "source": inputs[i].Src, "first": first[i], "later": again[i]})
+			}
+		}
+		runtime.GOMAXPROCS(runtime.NumCPU())
+		run.Cov["history_independence_formats"] = 2 * len(inputs)
+	}
 	run.Cov["inputs"] = len(inputs)
 	run.Cov["accepted_by_generate"] = accepted.Load()
 	run.Cov["changed_by_formatting"] = changed.Load()
